@@ -8,13 +8,13 @@ R(v) == IF v = "ok" THEN "ok" ELSE "reject:" \o v
 D(cond, name) == IF cond THEN "ok" ELSE "drift:" \o name
 
 SnapAffV(e) ==
-  LET c == e.c o == e.o tn == c.tol[1] td == c.tol[2]
-      Near(n) == Dist(n, 1024) * td < tn * 1024
-      Exp(n) == IF Near(n) THEN Whole(n, 1024) * 1024 ELSE n IN
+  LET c == e.c o == e.o
+      Near(n, tl) == Dist(n, 1024) * tl[2] < tl[1] * 1024
+      Exp(n, tl) == IF Near(n, tl) THEN Whole(n, 1024) * 1024 ELSE n IN
   IF ~o.idem THEN "snap_affine_not_idempotent"
   ELSE IF c.rot # 0 THEN (IF o.terms # <<c.sx, c.rot, c.tx, -c.rot, c.sy, c.ty>> THEN "rotated_transform_changed" ELSE "ok")
   ELSE IF o.terms[2] # 0 \/ o.terms[4] # 0 THEN "off_diagonal_terms_appeared"
-  ELSE IF \E p \in {<<1, c.sx>>, <<3, c.tx>>, <<5, c.sy>>, <<6, c.ty>>} : o.terms[p[1]] # Exp(p[2]) THEN "term_not_snapped_exactly_within_its_tolerance"
+  ELSE IF \E p \in {<<1, c.sx, c.stol>>, <<3, c.tx, c.tol>>, <<5, c.sy, c.stol>>, <<6, c.ty, c.tol>>} : o.terms[p[1]] # Exp(p[2], p[3]) THEN "term_not_snapped_exactly_within_its_own_tolerance"
   ELSE "ok"
 RwsV(e) ==
   LET c == e.c W == <<2, c.w2, 0, 2>> Sm == <<c.sx2, 0, 0, c.sy2>> A == MMul(MMul(c.R, W), Sm) o == e.o
